@@ -226,6 +226,7 @@ static void kill_child(struct client *k)
 {
 	if (!k->pid) return;
 	close(k->to_child);
+	kill(k->pid, SIGKILL);          /* dies wherever it is (possibly in the middle of the handshake) */
 	int st;
 	waitpid(k->pid, &st, 0);
 	close(k->from_child);
